@@ -49,6 +49,7 @@ OkLike == {"ok", "nosys", "zlen"}
 Retriable == {"again", "intr", "abort"}
 NonRetriable == {"emfile", "enfile", "nomem"}
 CodeName == <<"ok", "nosys", "zlen", "again", "intr", "abort", "emfile", "enfile", "nomem">>
+Sat(n) == IF n > 2 THEN 2 ELSE n      \* ghost counters saturate (finite state graph)
 RECURSIVE Decode(_)
 Decode(n) == IF n = 0 THEN <<>> ELSE Append(Decode(n \div 10), CodeName[n % 10])
 
@@ -117,7 +118,7 @@ ReadStep(R) ==
   ELSE IF r \in Retriable THEN [R EXCEPT !.as = as1]
   ELSE \* non-retriable error
     IF S.ecb = 0 THEN [R EXCEPT !.as = as1]
-    ELSE LET S1 == [S EXCEPT !.nonretr = @ + 1, !.errcalls = @ + 1]
+    ELSE LET S1 == [S EXCEPT !.nonretr = Sat(@ + 1), !.errcalls = Sat(@ + 1)]
              S2 == ApplyCbAct(S1, R.es)
          IN [R EXCEPT !.as = as1, !.err = Append(@, ErrName(r)),
                       !.s = IF ~S2.live THEN Destroy(S2) ELSE S2]
